@@ -82,6 +82,7 @@ func c14SourceValidators(c *Ctx) {
 		}
 		var keys []lease_set2.EncryptionKey
 		var keyWire []byte
+		oversized := false
 		for j := 0; j < nk; j++ {
 			kt := keyTypes[r.Intn(len(keyTypes))]
 			n, known := specCryptoLen[kt]
@@ -107,8 +108,9 @@ func c14SourceValidators(c *Ctx) {
 			}
 			// data longer than its declared length by exactly the range of the 16-bit length field
 			// (the declared length is then what a truncating conversion of the real one gives)
-			if !clean && (i%97 == 13 || r.Intn(60) == 0) {
+			if !clean && !oversized && (i%97 == 13 || r.Intn(60) == 0) {
 				n = kl + 65536
+				oversized = true // at most one such key per argument tuple
 			}
 			kd := r.Bytes(n)
 			keys = append(keys, lease_set2.EncryptionKey{KeyType: uint16(kt), KeyLen: uint16(kl), KeyData: kd})
